@@ -494,6 +494,90 @@ static void wlThenLone() {
       sim_fail("then-lone:never-run", "continuation %d ran %d times", r, runs[r]);
 }
 
+// Several threads attach one continuation each to the SAME pending future at the same moment: the only
+// race is push against push on the then-chain.  Every continuation must still run exactly once, by itself.
+static void wlThenCollide() {
+  int nThreads = range(1, 3);
+  int reps = range(1, 4);
+  int schedKind = (int)pick(3); // 0 pool 1 immediate 2 CTS
+  bool asyncPol = chance(1, 2);
+  sim_note("pool", nThreads);
+  sim_note("reps", reps);
+  sim_note("sched", schedKind);
+  dispenso::ThreadPool pool((size_t)nThreads + 1, (size_t)32);
+  dispenso::ConcurrentTaskSet cts(pool);
+  dispenso::ImmediateInvoker imm;
+  static Src srcs[4];
+  static int go[4];
+  static int runs[16];
+  for (int i = 0; i < 4; ++i) {
+    srcs[i] = Src();
+    go[i] = 0;
+  }
+  memset(runs, 0, sizeof runs);
+  g_fanPending = 0;
+  sim_set_hang_keyer(fanHangKey);
+  int regsPer[4], total = 0;
+  for (int r = 0; r < reps; ++r) {
+    regsPer[r] = range(2, 4);
+    total += regsPer[r];
+  }
+  static SimLatch allRan;
+  allRan = SimLatch(total);
+  std::vector<dispenso::Future<int>> conts((size_t)total);
+  int slot = 0;
+  for (int r = 0; r < reps; ++r) {
+    dispenso::Future<int> parent(
+        [r]() {
+          for (int i = 0; i < 200000 && !go[r]; ++i)
+            sim_sleep_ns(300);
+          srcs[r].runs++;
+          srcs[r].done = true;
+          return 1;
+        },
+        pool, std::launch::async);
+    int n = regsPer[r];
+    static int arrived;
+    arrived = 0;
+    std::vector<std::thread> regs;
+    for (int k = 0; k < n; ++k) {
+      int id = slot++;
+      regs.emplace_back([&, id, r, n](dispenso::Future<int> mine) {
+        arrived++;
+        for (int i = 0; i < 100000 && arrived < n; ++i)
+          sim_sleep_ns(100);
+        auto cont = [id, r](dispenso::Future<int>&& ante) {
+          if (runs[id]++ > 0)
+            sim_fail("then-collide:dup-run", "continuation %d ran twice", id);
+          if (!ante.is_ready() || !srcs[r].done)
+            sim_fail("then-collide:antecedent-not-ready", "continuation %d started while its antecedent is not ready", id);
+          int v = ante.get() + id;
+          allRan.countDown();
+          return v;
+        };
+        auto pol = asyncPol ? std::launch::async : dispenso::kNotAsync;
+        conts[(size_t)id] = schedKind == 0 ? mine.then(cont, pool, pol)
+                                            : (schedKind == 1 ? mine.then(cont, imm, pol) : mine.then(cont, cts, pol));
+      }, parent);
+    }
+    for (auto& t : regs)
+      t.join();
+    go[r] = 1; // only now may the parent complete: every link is on the chain
+  }
+  g_fanPending = 1;
+  allRan.wait();
+  for (int id = 0; id < total; ++id) {
+    int got = conts[(size_t)id].get();
+    if (got != 1 + id)
+      sim_fail("then-collide:wrong-value", "continuation %d produced %d", id, got);
+  }
+  g_fanPending = 0;
+  cts.wait();
+  for (int id = 0; id < total; ++id)
+    if (runs[id] != 1)
+      sim_fail("then-collide:never-run", "continuation %d ran %d times", id, runs[id]);
+}
+
 static void wlWhen() {
   int nThreads = range(0, 3);
   int n = range(0, 5);
@@ -731,6 +815,7 @@ HX_WORKLOAD("C18", "future", wlFuture, SF_ALL | SF_TSO, 4000000, 4000000, 1);
 HX_WORKLOAD("C19", "then", wlThen, SF_ALL | SF_TSO, 4000000, 4000000, 1);
 HX_WORKLOAD("C19", "then-fanout", wlThenFanout, SF_ALL | SF_TSO, 400000, 400000, 2);
 HX_WORKLOAD("C19", "then-lone", wlThenLone, SF_ALL | SF_TSO, 400000, 400000, 2);
+HX_WORKLOAD("C19", "then-collide", wlThenCollide, SF_ALL | SF_TSO, 600000, 600000, 2);
 HX_WORKLOAD("C19", "when", wlWhen, SF_ALL | SF_TSO, 4000000, 4000000, 1);
 HX_WORKLOAD("C20", "timed-event", wlTimedEvent, SF_ALL, 4000000, 4000000, 1);
 HX_WORKLOAD("C20", "timed-future", wlTimedFuture, SF_ALL, 4000000, 4000000, 1);
